@@ -211,7 +211,7 @@ func registerIntrinsics(in *Interp) {
 	I[flagsPkg+".vTagged"] = func(in *Interp, fr *frame, a []Val) Val {
 		shape := concStr(a[1])
 		tags := a[2].(Slice).a
-		names := map[string]string{"s": "vTS", "b": "vTB", "ss": "vTSS", "g": "vTG", "gg": "vTGG", "c": "vTC", "p": "vTP"}
+		names := map[string]string{"bs": "vTBS", "fn": "vTFN", "s": "vTS", "b": "vTB", "ss": "vTSS", "g": "vTG", "gg": "vTGG", "c": "vTC", "p": "vTP"}
 		tn, ok := names[shape]
 		if !ok {
 			panic(in.unsupported("vTagged shape " + shape))
@@ -222,7 +222,7 @@ func registerIntrinsics(in *Interp) {
 		set := func(st *types.Struct, i int, tag Val) { in.tagOverride[tagKey{st, i}] = tag.(Str) }
 		inner := func(i int) *types.Struct { return st.Field(i).Type().Underlying().(*types.Struct) }
 		switch shape {
-		case "s", "b", "g", "c":
+		case "s", "b", "bs", "fn", "g", "c":
 			set(st, 0, tags[0])
 		case "ss":
 			set(st, 0, tags[0])
@@ -781,6 +781,13 @@ func (in *Interp) fmtValue(fr *frame, a Val, verb byte) Str {
 			return ConcStr("%!s(<nil>)")
 		}
 		return ConcStr("<nil>")
+	}
+	if rt, ok := itf.v.(RType); ok && (verb == 's' || verb == 'v') {
+		// a reflect.Type prints its String()
+		if rt.t == nil {
+			return ConcStr("<nil>")
+		}
+		return ConcStr(types.TypeString(rt.t, func(p *types.Package) string { return p.Name() }))
 	}
 	if verb == 's' || verb == 'v' || verb == 'q' {
 		// error / Stringer take precedence
